@@ -303,6 +303,8 @@ class World:
             r = h(interp, obj, name, node)
             if r is not _MISSING:
                 return r
+        if obj.cls.lookup("__getattr__") is not None or obj.cls.lookup("__getattribute__") is not None:
+            interp.unsupported(f"{obj.cls.name}.__getattr__ (attribute protocol not modelled)", node)
         interp.throw("AttributeError", f"'{obj.cls.name}' object has no attribute '{name}'", node)
 
     def elem_eq(self, interp, a, b):
@@ -463,7 +465,7 @@ class World:
                     return it.call(BoundMethod(m, v), [], {}, n)
             if hasattr(v, "length"):
                 return v.length
-            it.guard(False, "TypeError", n, f"object of type {_tn(v)} has no len()")
+            it.dunder_or_typeerror(v, ("__len__",), n, f"object of type {_tn(v)} has no len()")
 
         @reg("str")
         def _str(it, a, k, n):
